@@ -29,8 +29,7 @@ TRUSTED = [
 ASSUMPTIONS = ["ASCII digits in field names (str.isdigit vs decimal digits differ on e.g. superscripts)",
                "field indices below 2**63 (get_integer overflow is not modelled)"]
 
-F5_KEY = "F5-colors-autonumbering-first-component"
-F13_KEY = "C05-colors-recursion-depth-escaped-braces"
+F21_KEY = "C05-colors-recursion-depth-escaped-braces"
 
 PERR = {
     "Single '}' encountered in format string": "singleClose",
@@ -232,20 +231,6 @@ def parse_lenient(t):
         return out
 
 
-def first_component(name):
-    for i, c in enumerate(name):
-        if c in ".[":
-            return name[:i]
-    return name
-
-
-def simple_head(name):
-    f = first_component(name)
-    if name == "" or (name.isdigit() and name.isascii()):
-        return True
-    return f != "" and not f.isdigit()
-
-
 def fields_at(t, level=0, maxlevel=3):
     """(level, field_name, spec) of every field the formatters may reach"""
     out = []
@@ -257,11 +242,7 @@ def fields_at(t, level=0, maxlevel=3):
     return out
 
 
-def f5_shape(t):
-    return any(not simple_head(name) for _l, name, _s in fields_at(t))
-
-
-def f13_shape(t):
+def f21_shape(t):
     """a field inside a format spec whose own spec contains '{' (a third nesting level): str.format
     refuses it with ValueError before evaluating anything there, string.Formatter-style code evaluates
     that level (renders it when it only holds escaped braces, or raises the lookup error of its fields)"""
@@ -292,10 +273,40 @@ def same_failure(got, py, full):
     return False
 
 
+class _ThreeLevelFormatter(string.Formatter):
+    """str.format's numbering rule (first component, via CPython's own field_name_split) combined with
+    string.Formatter._vformat's depth guard (`< 0`, unconditional recursion into the spec): what the
+    coloured path is known to compute (finding F21).  Only used to CLASSIFY a disagreement as F21."""
+
+    def _vformat(self, format_string, args, kwargs, used_args, recursion_depth, auto_arg_index=0):
+        if recursion_depth < 0:
+            raise ValueError("Max string recursion exceeded")
+        result = []
+        for literal_text, field_name, format_spec, conversion in self.parse(format_string):
+            if literal_text:
+                result.append(literal_text)
+            if field_name is not None:
+                first, _ = _string.formatter_field_name_split(field_name)
+                if first == "":
+                    if auto_arg_index is False:
+                        raise ValueError("cannot switch from manual field specification to automatic field numbering")
+                    field_name = str(auto_arg_index) + field_name
+                    auto_arg_index += 1
+                elif isinstance(first, int):
+                    if auto_arg_index:
+                        raise ValueError("cannot switch from manual field specification to automatic field numbering")
+                    auto_arg_index = False
+                obj, arg_used = self.get_field(field_name, args, kwargs)
+                used_args.add(arg_used)
+                obj = self.convert_field(obj, conversion)
+                format_spec, auto_arg_index = self._vformat(format_spec, args, kwargs, used_args, recursion_depth - 1,
+                                                            auto_arg_index=auto_arg_index)
+                result.append(self.format_field(obj, format_spec))
+        return "".join(result), auto_arg_index
+
+
 def formatter_vformat(t, args, kwargs):
-    """stdlib string.Formatter (the pure-Python re-implementation loguru copied): has exactly the
-    whole-field-name auto-numbering rule (F5) and the `< 0` depth guard"""
-    return res_of(lambda: string.Formatter().vformat(t, args, kwargs))
+    return res_of(lambda: _ThreeLevelFormatter().vformat(t, args, kwargs))
 
 
 # ----------------------------------------------------------------------------- implementation access
@@ -511,10 +522,8 @@ def check_message(ctx, impl, t, args, kwargs, stream, colors):
     key = None
     if colors and (args or kwargs):
         alt = formatter_vformat(t, args, kwargs)
-        if got == alt and f5_shape(t):
-            key = F5_KEY
-        elif got == alt and f13_shape(t):
-            key = F13_KEY
+        if got == alt and f21_shape(t):
+            key = F21_KEY
     ctx.violation("logger%s.info(%r, *%r, **%r): record['message'] expected %r, observed %r"
                   % (".opt(colors=True)" if colors else "", t, args, kwargs, exp, got), rep, key=key)
     return False
@@ -597,9 +606,11 @@ def run(ctx):
 def _run(ctx, rng, drv, boost, impl):
     # ---- known findings: probe their witnesses on every run (the Lean witnesses are the same inputs)
     for t, args, key, what in (
-            ("{.real}", (1,), F5_KEY, "opt(colors=True).info('{.real}', 1)"),
-            ("{0.real}{}", (1,), F5_KEY, "opt(colors=True).info('{0.real}{}', 1)"),
-            ("{0:{0:{{%Y}}}}", (pydt.datetime(2020, 1, 2),), F13_KEY, "opt(colors=True).info('{0:{0:{{%Y}}}}', datetime)")):
+            # F5 (fixed by d5e7115): regressions, any disagreement is a plain violation
+            ("{.real}", (1,), None, "opt(colors=True).info('{.real}', 1)"),
+            ("{0.real}{}", (1,), None, "opt(colors=True).info('{0.real}{}', 1)"),
+            ("{[0]}{.real}", ([5], 2), None, "opt(colors=True).info('{[0]}{.real}', [5], 2)"),
+            ("{0:{0:{{%Y}}}}", (pydt.datetime(2020, 1, 2),), F21_KEY, "opt(colors=True).info('{0:{0:{{%Y}}}}', datetime)")):
         ctx.case(("witness", t))
         check_message(ctx, impl, t, list(args), {}, "witness", True)
 
@@ -670,6 +681,8 @@ def _run(ctx, rng, drv, boost, impl):
         names.add("".join(rng.choice(list(".[]0a1x é")) for _ in range(rng.range(0, 6))))
     for n in range(0, 40):
         names.add(str(n))
+        for suf in (".real", "[0]", ".a[k].b", "[", ".", "[x]y", "..", "[0].é"):
+            names.add(str(n) + suf)     # `str(auto_arg_index) + field_name`: splits to (n, steps of the suffix)
     for nm in sorted(names):
         if not ascii_only_digits(nm):
             continue
@@ -736,7 +749,7 @@ def _run(ctx, rng, drv, boost, impl):
         expect.append(("Format.coloredFormat", (t, nargs, kws), show_res(col)))
         if col != py:
             alt = formatter_vformat(t, args, kwargs)
-            key = F5_KEY if (col == alt and f5_shape(t)) else (F13_KEY if (col == alt and f13_shape(t)) else None)
+            key = F21_KEY if (col == alt and f21_shape(t)) else None
             ctx.stat("sym:colored_differs:" + str(key))
             ctx.violation("prepare_message(%r, %d args, kwargs %r).stripped: str.format gives %r, observed %r"
                           % (t, nargs, kws, py, col),
@@ -772,7 +785,7 @@ def _run(ctx, rng, drv, boost, impl):
             key = None
             if colors and (args or kwargs):
                 alt = formatter_vformat(t, args, kwargs)
-                key = F5_KEY if (got == alt and f5_shape(t)) else (F13_KEY if (got == alt and f13_shape(t)) else None)
+                key = F21_KEY if (got == alt and f21_shape(t)) else None
             ctx.violation("logger%s.info(%r, *%r, **%r): record['message'] expected %r, observed %r"
                           % (".opt(colors=True)" if colors else "", t, args, kwargs, exp, got),
                           {"stream": "real", "rng_state": state, "template": t, "colors": colors, "expected": list(exp),
